@@ -7,7 +7,7 @@ correspondence: the regenerated tables run by the extracted interpreter vs the r
 oracle:         an independent Python statement of the documented wiring: a valid file must come back field by field,
                 an omission or a sign violation must be an exception."""
 import math, random, math, json, os, shutil, ctypes, subprocess, sys
-import vlib
+import vlib, tissue
 from vlib import hx, unhx
 
 LEVEL = "proof"
@@ -467,6 +467,31 @@ def run(ck):
     except vlib.BuildError as e:
         ck.notes["governs_the_run"] = "driver build failed: " + str(e)[-200:]
     ck.notes["runs_checking_that_dt_S_T_govern_the_run"] = ngov
+    # ---- perform_initial_triangulation governs the start-up FROM A FILE: with 0 an already triangulated input mesh is taken as it is
+    # (same number of nodes), with 1 it is re-meshed at the minimum edge length
+    try:
+        c17 = importlib.import_module("checks.c17")
+        d_ = os.path.join(vlib.CACHE, "tmp", "c18_st_%d" % os.getpid()); os.makedirs(d_, exist_ok=True)
+        cn, cf = tissue.cube()
+        cells_ = [([[x * 1e-5 for x in p] for p in cn], [tuple(t) for t in cf]), ([[x * 1e-5 + (4e-5 if k == 0 else 0.0) for k, x in enumerate(p)] for p in cn], [tuple(t) for t in cf])]
+        mp = os.path.join(d_, "m.vtk"); open(mp, "w").write(c17.render_lines(c17.mesh_file_lines(cells_, [0, 0])))
+        st_lines = []
+        for tri in (0, 1):
+            px = os.path.join(d_, "p%d.xml" % tri); open(px, "w").write(c17.base_xml(mp, os.path.join(d_, "out"), tri))
+            st_lines.append("ST " + px)
+        souts, _cr = vlib.run_lines_resilient([impl], st_lines, timeout=600)
+        shutil.rmtree(d_, ignore_errors=True)
+        if souts[0] and souts[0].startswith("OK") and " NN " in souts[0]:
+            nn0 = [int(x) for x in souts[0].split(" NN ")[1].split()]
+            if nn0 != [8, 8]:
+                gov_fails.append((dict(line=st_lines[0], dt=None, S=None, T=None), "perform_initial_triangulation_governs_the_start_up (flag 0 in the file, the two 8-node input cubes arrive with %s nodes)" % nn0))
+        if souts[1] and souts[1].startswith("OK") and " NN " in souts[1]:
+            nn1 = [int(x) for x in souts[1].split(" NN ")[1].split()]
+            if any(x <= 8 for x in nn1):
+                gov_fails.append((dict(line=st_lines[1], dt=None, S=None, T=None), "perform_initial_triangulation_governs_the_start_up (flag 1 in the file, the cubes were not re-meshed: %s nodes)" % nn1))
+        ck.notes["start_ups_from_a_file_with_the_triangulation_flag"] = [s_[:60] if s_ else None for s_ in souts]
+    except Exception as e:
+        ck.notes["start_ups_from_a_file_with_the_triangulation_flag"] = "not run: " + str(e)[-160:]
     ck.cov["evaluations"] = len(cases) + ngov
     ck.cov["distinct_nontrivial"] = nontriv
     ck.cov["traces_validated_against_impl"] = len(cases) - len(broken)
